@@ -171,6 +171,56 @@ func runC18(seed int64, tier string, sc *Script) map[string]any {
 		path := filepath.Join(tmp, fmt.Sprintf("c%d", ci), "config.json")
 		os.MkdirAll(filepath.Dir(path), 0o755)
 		sc.Def("cd new")
+		// what Get must answer, kept independently of the store: entries of the document as
+		// written (docker's format: auth = user:password, identitytoken = refresh token,
+		// registrytoken = access token, username/password when there is no auth), replaced by
+		// Put under the exact address, removed by Delete under the exact address; an address is
+		// also served by a legacy key - the same host with a scheme and/or a path
+		var preLive []preEntry
+		puts := map[string]auth.Credential{}
+		hostOfKey := func(k string) string {
+			k = strings.TrimPrefix(strings.TrimPrefix(k, "https://"), "http://")
+			if i := strings.IndexByte(k, '/'); i >= 0 {
+				k = k[:i]
+			}
+			return k
+		}
+		credOfPre := func(e preEntry) auth.Credential {
+			c := auth.Credential{Username: e.lu, Password: e.lp, RefreshToken: e.idt, AccessToken: e.rgt}
+			if e.hasAuth {
+				i := strings.IndexByte(e.auth, ':')
+				c.Username, c.Password = e.auth[:i], e.auth[i+1:]
+			}
+			return c
+		}
+		expect := func(addr string) string {
+			c := auth.EmptyCredential
+			if pc, ok := puts[addr]; ok {
+				c = pc
+			} else {
+				found := false
+				for _, e := range preLive {
+					if e.addr == addr {
+						c, found = credOfPre(e), true
+					}
+				}
+				for _, e := range preLive {
+					if !found && hostOfKey(e.addr) == addr {
+						c, found = credOfPre(e), true
+					}
+				}
+			}
+			return fmt.Sprintf("%s|%s|%s|%s", hx(c.Username), hx(c.Password), hx(c.RefreshToken), hx(c.AccessToken))
+		}
+		dropExact := func(addr string) {
+			var keep []preEntry
+			for _, e := range preLive {
+				if e.addr != addr {
+					keep = append(keep, e)
+				}
+			}
+			preLive = keep
+		}
 		// pre-existing document
 		if rng.Intn(4) != 0 {
 			top := map[string]json.RawMessage{}
@@ -184,7 +234,8 @@ func runC18(seed int64, tier string, sc *Script) map[string]any {
 				used[h] = true
 				addr := h
 				if rng.Intn(3) == 0 {
-					addr = []string{"https://" + h + "/v1/", "http://" + h, "https://" + h}[rng.Intn(3)]
+					// legacy keys: with a scheme, or bare with a path / trailing slash
+					addr = []string{"https://" + h + "/v1/", "http://" + h, "https://" + h, h + "/v1/", h + "/"}[rng.Intn(5)]
 				}
 				e := preEntry{addr: addr, unk: rng.Intn(3)}
 				if rng.Intn(3) != 0 {
@@ -200,6 +251,7 @@ func runC18(seed int64, tier string, sc *Script) map[string]any {
 					e.rgt = "regtok"
 				}
 				auths[addr] = e.raw()
+				preLive = append(preLive, e)
 				a := "-"
 				if e.hasAuth {
 					a = hx(e.auth)
@@ -292,6 +344,8 @@ func runC18(seed int64, tier string, sc *Script) map[string]any {
 				sc.Op(res, "cd put addr=%s u=%s p=%s rt=%s at=%s", hx(addr), hx(c.Username), hx(c.Password), hx(c.RefreshToken), hx(c.AccessToken))
 				if err == nil {
 					wrote = true
+					dropExact(addr)
+					puts[addr] = c
 					got, gerr := fs.Get(ctx, addr)
 					v := "same"
 					if gerr != nil || got != c {
@@ -304,11 +358,13 @@ func runC18(seed int64, tier string, sc *Script) map[string]any {
 				}
 			case r < 8:
 				c, err := fs.Get(ctx, addr)
-				sc.Op(credStr(c, err), "cd get addr=%s", hx(addr))
+				sc.Op(credStr(c, err), "cd get addr=%s want=%s", hx(addr), expect(addr))
 			default:
 				if err := fs.Delete(ctx, addr); err != nil {
 					panic(err)
 				}
+				dropExact(addr)
+				delete(puts, addr)
 				sc.Op("ok", "cd del addr=%s", hx(addr))
 			}
 			if wrote {
@@ -328,7 +384,7 @@ func runC18(seed int64, tier string, sc *Script) map[string]any {
 			}
 			for _, h := range hosts {
 				c, err := fs2.Get(ctx, h)
-				sc.Op(credStr(c, err), "cd get addr=%s", hx(h))
+				sc.Op(credStr(c, err), "cd get addr=%s want=%s", hx(h), expect(h))
 			}
 		}
 	}
